@@ -329,6 +329,43 @@ class AccountingMonitor(Monitor):
         if market is not None and mb.status != "CLOSED":
             self.audit(market, "update_end")
 
+    def on_quiescent(self, kind):
+        """World B, after the drain and the final order image: the runner accounting must follow the real state of the
+        bets, i.e. the exchange's: a trade with a bet that is still live at the exchange is a live trade."""
+        if kind != "final" or not hasattr(self.run, "exchange"):
+            return
+        # only in sessions without injected API faults: with lost or garbled responses the local order state may
+        # legitimately lag the exchange (that is C12's subject), the statement is about the orders' own state
+        for plan in (self.run.scenario.get("faults") or {}).values():
+            if set(plan) - {"match_on_place"}:
+                return
+        ex = self.run.exchange
+        for market in self.run.fw.markets:
+            by = {}
+            for o in market.blotter:
+                by.setdefault((o.trade.strategy, o.lookup), []).append(o)
+            for (strategy, lookup), orders in by.items():
+                ctx = self._ctx(strategy, lookup)
+                if ctx is None:
+                    continue
+                exp = set()
+                race = False
+                for o in orders:
+                    b = ex.bets.get(str(o.bet_id)) if o.bet_id is not None else None
+                    if b is None:
+                        if not o.complete:
+                            exp.add(o.trade.id)
+                        continue
+                    if not b["complete"]:
+                        exp.add(o.trade.id)
+                        lg = [x.name for x in o.status_log]
+                        if o.complete and lg[-2:] == ["CANCELLING", "EXECUTION_COMPLETE"] and abs(b["cancelled"] - b["remaining"]) < 1e-9:
+                            race = True
+                if set(ctx.live_trades) != exp:
+                    site = "live-trades-differ-from-bets-live-at-the-exchange" + (":partial-cancel-race" if race else "")
+                    self.violate(self.P, "C10.live", site, strategy=strategy.name, lookup=list(lookup), live_trades=len(ctx.live_trades), expected=len(exp), orders=[(o._vid, o.status.name if o.status else None, o.order_type.ORDER_TYPE.name) for o in orders])
+                self.res.probes["c10.live.exchange_truth_checks"] += 1
+
     def on_step_end(self):
         # live world: after every event handled by the main loop (no pool task is mid-handler: one thread runs at a time)
         for market in self.run.fw.markets:
